@@ -42,7 +42,7 @@ def bounds(tier, seed):
         dims=[2, 3, 4, 5],
         alphas=ALPHAS,
         compositions="all 2^(d-1)",
-        families=["lattice", "generic"],
+        families=["lattice", "generic", "intlattice (integer dtype)"],
         seed=seed,
     )
 
@@ -62,7 +62,7 @@ def cases(group):
     tests = [list(t) for t in itertools.product([1, 2, 3], repeat=3)] if group["gi"] % 4 == 0 else menu
     for test in tests:
         for d in (2, 3, 4, 5):
-            for family in ("lattice", "generic"):
+            for family in ("lattice", "generic", "intlattice"):
                 yield dict(train=group["train"], test=test, d=d, family=family, seed=group["seed"])
 
 
@@ -72,7 +72,9 @@ def _features(counts, d, family, seed, offset):
     for si, c in enumerate(counts):
         rows = []
         for _ in range(c):
-            if family == "lattice":
+            if family == "intlattice":
+                rows.append([float(((e + offset) * (j + 2) + j * j + si) % 4) + 1.0 for j in range(d)])
+            elif family == "lattice":
                 rows.append([float(((e + offset) * (j + 2) + j * j + si) % 4) + (1.0 if j % 2 == 0 else 0.5) for j in range(d)])
             else:
                 rng = np.random.default_rng([seed, offset, e, d])
@@ -106,6 +108,9 @@ def check(case):
     d = case["d"]
     train = _features(case["train"], d, case["family"], case["seed"], 0)
     test = _features(case["test"], d, case["family"], case["seed"], 1000)
+    as_int = case["family"] == "intlattice"  # integer-valued features handed over with an integer dtype
+    give = (lambda arrs: [a.astype(np.int64) for a in arrs]) if as_int else (lambda arrs: [a.copy() for a in arrs])
+    rows = np.vstack(train)
     lens = [len(t) for t in test]
     atoms = np.vstack(test)
     r.states = 0
@@ -121,7 +126,10 @@ def check(case):
             continue
         rtol = max(1e-6, 1e3 * cnd * np.finfo(float).eps)  # 1/(x A^-1 x) is accurate to about cond * eps
         try:
-            LPR, rank_diff = local_prediction_rigidity([t.copy() for t in train], [t.copy() for t in test], alpha)
+            if len(rows) >= 2:
+                # immediately before: the SAME environments (same alpha) grouped into other structures
+                local_prediction_rigidity(give([rows[:1], rows[1:]]), give(test), alpha)
+            LPR, rank_diff = local_prediction_rigidity(give(train), give(test), alpha)
         except Exception as e:
             return r.fail("crash:%s" % type(e).__name__, "LPR alpha=%g: %r" % (alpha, e))
         r.transitions += 1
@@ -155,7 +163,9 @@ def check(case):
             continue
         for comp in fam.compositions(d):
             try:
-                CPR, LCPR, rd2 = componentwise_prediction_rigidity([t.copy() for t in train], [t.copy() for t in test], alpha, np.array(comp))
+                if len(rows) >= 2 and len(comp) == 1:
+                    componentwise_prediction_rigidity(give([rows[:1], rows[1:]]), give(test), alpha, np.array(comp))
+                CPR, LCPR, rd2 = componentwise_prediction_rigidity(give(train), give(test), alpha, np.array(comp))
             except Exception as e:
                 return r.fail("crash:%s" % type(e).__name__, "CPR alpha=%g comp=%s: %r" % (alpha, comp, e))
             r.transitions += 1
